@@ -49,7 +49,7 @@ RegOK(reg) == /\ reg.np \in Nat /\ reg.nl \in Nat
 (* in sequence ("seq": no control dependence between predicates)                           *)
 MkReg(np, nb, nl, shape, diam) ==
   [np |-> np, nl |-> nl,
-   cos |-> 1..(nb + (IF np = 0 THEN 0 ELSE IF shape = "own" THEN np ELSE 1)),
+   cos |-> {c \in 1..(nb + (IF np = 0 THEN 0 ELSE IF shape = "own" THEN np ELSE 1)) : TRUE},
    own |-> [p \in 1..np |-> nb + (IF shape = "own" THEN p ELSE 1)],
    diam |-> [p \in 1..np |-> diam],
    cdg |-> IF shape = "nested"
